@@ -57,14 +57,13 @@ def must_yield_bounds(ctx, cname, f, kval, truth, depth=0):
     n = Norm(sc, bind=bind)
     trivial = {"(self.max == inf)": False, "(inf == self.max)": False}
 
+    # trivial bounds (min==0 and max==inf) are assumed false: a bound has been declared
+    truth = dict(truth)
+    for txt in ("self.min==0 and self.max==inf", "self.max==inf and self.min==0"):
+        truth[n.key(ast.parse(txt, mode="eval").body)] = False
+
     def guard(test):
-        v = poly_guard(test, n, truth)
-        if v is None:
-            # trivial bounds (min==0 and max==inf) are assumed false: a declared bound is present
-            t = ast.unparse(test).replace(" ", "")
-            if "self.min==0" in t and "self.max==inf" in t:
-                return False
-        return v
+        return poly_guard(test, n, truth)
 
     def inline(call):
         # Base.bounds_T(self, ...) delegations
@@ -483,46 +482,43 @@ def r06_5(ctx):
               found="; ".join(ast.unparse(c) for c in sub) or "no constraint", fi=fb)
 
 
-@rule("R06.6", min_instances=4, desc="DT_control and DT derive from differences of the control / integrator grid of the addressed interval (alias -1 handled)")
+@rule("R06.6", min_instances=11, desc="DT_control and DT derive from differences of the control / integrator grid of the addressed interval (alias -1 and node N take the last interval); decided as a table over k (and i)")
 def r06_6(ctx):
+    from ..ceval import select_return, Unknown
     prog = ctx.prog
     f = prog.own_method("SamplingMethod", "get_DT_control_at")
     k = f.params[1]
     sc = ctx.scope(f)
-    rets = [r for r in walk_no_nested(f.node) if isinstance(r, ast.Return) and r.value is not None]
-    gen = [r for r in rets if not sc.guards(r)]
-    spec = [r for r in rets if sc.guards(r)]
-    nn = Norm(None)
-    okg = len(gen) == 1 and nn.poly(gen[0].value) == expected("self.control_grid[k+1]-self.control_grid[k]", k=k)
-    ctx.check(okg, "get_DT_control_at(k)", detail="control interval length", expected="control_grid[k+1]-control_grid[k]",
-              found="; ".join(ast.unparse(r.value) for r in gen), fi=f)
-    oks = len(spec) == 1 and nn.poly(spec[0].value) == expected("self.control_grid[-1]-self.control_grid[-2]")
-    if oks:
-        t = sc.guards(spec[0])[0][0]
-        vals = {}
-        for kv in (-1, 0, 1, 3, 4):
-            vals[kv] = poly_guard(t, Norm(None, bind={k: Poly.const(kv), "__N": Poly.const(4)}), truth=None) if False else \
-                poly_guard(ast.parse(ast.unparse(t).replace("self.N", "__N"), mode="eval").body, Norm(None, bind={k: Poly.const(kv), "__N": Poly.const(4)}))
-        oks = vals[-1] is True and vals[4] is True and vals[0] is False and vals[3] is False
-    ctx.check(oks, "get_DT_control_at(final node)", detail="final node takes the last interval", expected="k==-1 or k==N: control_grid[-1]-control_grid[-2]",
-              found="; ".join(ast.unparse(r.value) for r in spec), fi=f)
+    n = ctx.norm(f)
+    NN = 4
+    for kv in (-1, 0, 1, NN - 1, NN):
+        try:
+            r = select_return(f.node, {k: kv, "self.N": NN}, sc)
+            got = n.poly(r.value) if r is not None and r.value is not None else None
+        except Unknown as e:
+            got = "unknown (%s)" % e
+        want = expected("self.control_grid[-1]-self.control_grid[-2]") if kv in (-1, NN) else expected("self.control_grid[k+1]-self.control_grid[k]", k=k)
+        ctx.check(got == want, "get_DT_control_at(k=%s, N=%d)" % (kv, NN), detail="control-interval length of another interval", expected=want, found=got, fi=f, sample={"k": kv, "value": str(got)})
     g = prog.own_method("SamplingMethod", "get_DT_at")
     k, i = g.params[1], g.params[2]
     ng = ctx.norm(g)
-    rets = [r for r in walk_no_nested(g.node) if isinstance(r, ast.Return) and r.value is not None]
-    texts = sorted(str(ng.poly(r.value)) for r in rets)
-    want = sorted([str(expected("self.integrator_grid[k][i+1]-self.integrator_grid[k][i]", k=k, i=i)),
-                   str(expected("self.integrator_grid[k+1][0]-self.integrator_grid[k][i]", k=k, i=i))])
-    ctx.check(texts == want, "get_DT_at(k,i)", detail="integrator step length", expected=want, found=texts, fi=g)
-    gs = ctx.scope(g)
-    inner = [r for r in rets if str(ng.poly(r.value)) == want[0] or "1 + %s" % i in str(ng.poly(r.value))]
-    okc = False
-    for r in rets:
-        if str(ng.poly(r.value)) == str(expected("self.integrator_grid[k][i+1]-self.integrator_grid[k][i]", k=k, i=i)):
-            for t, p in gs.guards(r):
-                okc = p and ng.key(t) == ng.key(ast.parse("%s<self.integrator_grid[%s].numel()-1" % (i, k), mode="eval").body)
-    ctx.check(okc, "get_DT_at(k,i) branch", detail="within-interval step chosen iff i+1 exists", expected="i < integrator_grid[k].numel()-1",
-              found="; ".join(ast.unparse(t) for r in rets for t, p in gs.guards(r)), fi=g)
+    sg = ctx.scope(g)
+    numels = {ast.unparse(c) for c in walk_no_nested(g.node) if isinstance(c, ast.Call) and isinstance(c.func, ast.Attribute) and c.func.attr == "numel"}
+    for npts in (1, 2, 3):
+        for iv in range(npts):
+            env = {i: iv}
+            for t in numels:
+                env[t] = npts
+            try:
+                r = select_return(g.node, env, sg)
+                got = ng.poly(r.value) if r is not None and r.value is not None else None
+            except Unknown as e:
+                got = "unknown (%s)" % e
+            if iv < npts - 1:
+                want = expected("self.integrator_grid[k][i+1]-self.integrator_grid[k][i]", k=k, i=i)
+            else:
+                want = expected("self.integrator_grid[k+1][0]-self.integrator_grid[k][i]", k=k, i=i)
+            ctx.check(got == want, "get_DT_at(k, i=%d) with %d points in the interval" % (iv, npts), detail="integrator step length of another step", expected=want, found=got, fi=g)
 
 
 def tn_shortcuts(prog, ctx, funcs):
